@@ -10,7 +10,10 @@ Open Scope Z_scope.
 
 (* compact notation used by the driver for payloads that are slices of its two deterministic byte
    streams: wp = what the application writes, pp = what the scripted peer sends *)
-Definition zrange (n : Z) : list Z := map Z.of_nat (seq 0 (Z.to_nat n)).
+(* [0; 1; ...; n-1] without building unary numbers for the elements (seq would be quadratic) *)
+Fixpoint zrange_from (k : nat) (i : Z) : list Z :=
+  match k with O => [] | S k' => i :: zrange_from k' (i + 1) end.
+Definition zrange (n : Z) : list Z := zrange_from (Z.to_nat n) 0.
 Definition wp (off n : Z) : list Z := map (fun i => ((off + i) * 7 + (off + i) / 251) mod 256) (zrange n).
 Definition pp (off n : Z) : list Z := map (fun i => ((off + i) * 13 + (off + i) / 256 + 1) mod 256) (zrange n).
 
